@@ -288,12 +288,35 @@ class C09(Base):
     prop = "C09"
 
     def on_start(self, bus):
+        from jellyfysh.base.strings import to_camel_case
         self.first = True
+        # activation state reconstructed from the .ini as the user ships it (never from the taggers' own flags)
+        self.lists = {}
+        for t in bus.taggers:
+            sec = to_camel_case(t.tag)
+            def lst(opt):
+                v = bus.cfg.get(sec, opt, fallback="") if bus.cfg.has_section(sec) else ""
+                return [x.strip() for x in v.replace("\n", " ").split(",") if x.strip()]
+            self.lists[t.tag] = (lst("activate"), lst("deactivate"))
+        self.expected_active = {t.tag: True for t in bus.taggers}
+        self.start_tag = None
+        for t in bus.taggers:
+            if any(real_class_name(h).endswith("StartOfRunEventHandler") for h in t.get_event_handlers()):
+                self.start_tag = t.tag
+
+    def apply(self, tag):
+        act, deact = self.lists.get(tag, ([], []))
+        for x in act:
+            self.expected_active[x] = True
+        for x in deact:
+            self.expected_active[x] = False
 
     def on_activator(self, bus, active, preceding, result):
         if preceding is None:
             self.first = False
+            self.apply(self.start_tag)
             return
+        self.apply(bus.tag_of(preceding))
         # a fresh extraction of the active state for the from-scratch evaluation
         fresh = bus.sh.extract_active_global_state()
         by_tagger = {}
@@ -301,11 +324,21 @@ class C09(Base):
             by_tagger.setdefault(id(bus.tagger_of[hid]), []).append(ids)
         for t in bus.taggers:
             tcls = real_class_name(t)
-            if tcls == "NoInStateTagger" and any(real_class_name(h).endswith("StartOfRunEventHandler")
-                                                 for h in t.get_event_handlers()):
+            if t.tag == self.start_tag:
                 continue
-            gen1 = list(t.yield_identifiers_send_event_time(fresh))
-            gen2 = list(t.yield_identifiers_send_event_time(fresh))
+            if not self.expected_active[t.tag]:
+                # deactivated according to the .ini: a fresh start creates nothing for this tagger
+                self.acc.count("deactivated_tagger_comparisons")
+                pend = by_tagger.get(id(t), [])
+                if pend:
+                    self.viol(bus, "deactivated-tagger-has-pending-events",
+                              f"tagger '{t.tag}' is deactivated according to the activate/deactivate lists of the .ini but "
+                              f"has {len(pend)} pending events {_norm(pend)[:2]} after an event of '{bus.tag_of(preceding)}'",
+                              {"tagger": t.tag, "preceding": bus.tag_of(preceding)})
+                continue
+            generator = type(t).yield_identifiers_send_event_time   # the activated generator, whatever the instance flag says
+            gen1 = list(generator(t, fresh))
+            gen2 = list(generator(t, fresh))
             if _norm(gen1) != _norm(gen2):
                 self.acc.notes.append(f"tagger {t.tag} generator is not pure")
                 self.acc.count("impure_generators")
@@ -413,8 +446,17 @@ class C11(Base):
                                                                      f"{len(rec)} times: {[(a, c.identifier if c else None) for a, c in rec]}",
                               {"unit": list(k)})
                 elif rec[0][1] is not None and rec[0][1] is not cell:
-                    self.viol(bus, "unit-recorded-in-wrong-cell", f"unit {k} is at {S[k][0]} in cell {cell.identifier} but "
-                                                                  f"recorded as {rec[0][0]} of cell {rec[0][1].identifier}",
+                    # mechanism classifier: the unit came to rest EXACTLY on the lower face of its true cell (its last leg
+                    # ended in a time tie with the cell-boundary event) and is still recorded in the cell it came from
+                    Ls = lengths()
+                    on_face = [d for d in range(len(S[k][0]))
+                               if (abs(S[k][0][d] - cell.cell_min[d]) <= 4 * math.ulp(Ls[d])
+                                   and st.cells.neighbor_cell(cell, d, False) is rec[0][1])
+                               or (abs(S[k][0][d] - cell.cell_max[d]) <= 4 * math.ulp(Ls[d])
+                                   and st.cells.neighbor_cell(cell, d, True) is rec[0][1])]
+                    key = "stopped-exactly-on-cell-face" if on_face and S[k][1] is None else "unit-recorded-in-wrong-cell"
+                    self.viol(bus, key, f"unit {k} is at {S[k][0]} in cell {cell.identifier} but "
+                                        f"recorded as {rec[0][0]} of cell {rec[0][1].identifier}",
                               {"unit": list(k)})
                 else:
                     self.acc.count("units_matched")
@@ -452,7 +494,8 @@ class C11(Base):
                     if cname in self.boundary_classes:
                         self.acc.count("cell_boundary_commits")
                         continue
-                    edge = min(min(abs(pos[d] - cell.cell_min[d]), abs(pos[d] - cell.cell_max[d])) for d in range(len(L)))
+                    edge = min(min(circ(pos[d] - cell.cell_min[d], L[d]), circ(pos[d] - cell.cell_max[d], L[d]))
+                               for d in range(len(L)))
                     if edge <= 1e-9 * max(L):
                         self.acc.count("commits_on_cell_edge")
                         continue
@@ -620,8 +663,14 @@ def run_one(acc, spec=None, props=("C07",), seed=0, max_events=None, max_seconds
     except Exception as e:
         # the unchanged tree runs every scenario of the suite to its end: a run that aborts breaks every "along every
         # run" statement, so it is reported (with the traceback) rather than swallowed
-        acc.violation(f"{props[0]}:run-aborted-by-exception", f"[{label}] {type(e).__name__}: "
-                      + traceback.format_exc()[-700:], {"scenario": spec, "seed": seed})
+        tb = traceback.format_exc()
+        key = f"{props[0]}:run-aborted-by-exception"
+        if ("C11" in props and acc.violation_counts.get("C11:stopped-exactly-on-cell-face")
+                and "single_active_cell_occupancy.py" in tb and "in update" in tb and isinstance(e, (KeyError, ValueError))):
+            # consequence of the bookkeeping error the C11 monitor has already witnessed in THIS run: the unit recorded in
+            # the wrong cell became active again and update() cannot find it in the cell its position maps to
+            key = "C11:stopped-exactly-on-cell-face-crash"
+        acc.violation(key, f"[{label}] {type(e).__name__}: " + tb[-700:], {"scenario": spec, "seed": seed})
     finally:
         shutil.rmtree(workdir, ignore_errors=True)
     if bus is not None:
@@ -634,3 +683,144 @@ def run_one(acc, spec=None, props=("C07",), seed=0, max_events=None, max_seconds
         acc.counters["stopped_by"][str(bus.stopped_by)] = acc.counters["stopped_by"].get(str(bus.stopped_by), 0) + 1
         if bus.unused_sections:
             acc.notes.append(f"{label}: unused sections {bus.unused_sections}")
+
+
+# -- C10 (part 1 in runs) ------------------------------------------------------------------------------------------------
+class C10(Base):
+    """nearby (excluded-cells) + surplus + far (cell-veto walker domain / cell-bounding) targets partition all other units."""
+    prop = "C10"
+
+    def on_start(self, bus):
+        C11.on_start(self, bus)
+        self.domain_cache = {}
+        self.groups = []
+        for st, charge, limit in self.occs:
+            ts = [t for t in bus.taggers if getattr(t, "internal_state", None) is st
+                  and real_class_name(t) in ("ExcludedCellsTagger", "SurplusCellsTagger", "CellVetoTagger",
+                                             "CellBoundingPotentialTagger")]
+            classes = [real_class_name(t) for t in ts]
+            if len(set(classes)) != len(classes):
+                # several families (potentials) share one occupancy system: group by the tag's first word
+                by = {}
+                for t in ts:
+                    by.setdefault(t.tag.split("_")[0], []).append(t)
+                for k, g in by.items():
+                    self.groups.append((st, charge, g))
+            elif ts:
+                self.groups.append((st, charge, ts))
+
+    def veto_targets(self, bus, tagger, st, active_cell, active_id):
+        """Target cells reachable by the cell-veto handler for this active unit (all alias-table rows, both outcomes)."""
+        import copy
+        from vf.monitors.c18 import Script
+        branch = bus.sh.extract_from_global_state(active_id)
+        leaf = branch
+        while leaf.children:
+            leaf = next((c for c in leaf.children if c.value.velocity is not None), leaf.children[0])
+        vel = leaf.value.velocity
+        d = max(range(len(vel)), key=lambda k: abs(vel[k]))
+        ch = tuple(sorted((leaf.value.charge or {}).items()))
+        key = (id(tagger), tuple(active_cell.identifier), d, ch)
+        if key in self.domain_cache:
+            return self.domain_cache[key]
+        h = copy.deepcopy(tagger.get_event_handlers()[0])
+        targets = []
+        with Script() as s:
+            s.row, s.u, s.e = 0, 0.5, 1.0
+            h.send_event_time([bus.sh.extract_from_global_state(active_id)])
+            nrows = s.choice_len
+            seen = set()
+            for row in range(nrows):
+                for u in (1e-9, 1 - 1e-9):
+                    s.row, s.u = row, u
+                    t, (cell,) = h.send_event_time([bus.sh.extract_from_global_state(active_id)])
+                    if (row, id(cell)) not in seen:
+                        seen.add((row, id(cell)))
+            cells = {}
+            for row, cid in seen:
+                cells[cid] = cells.get(cid, 0) + 1
+            # a target cell may legitimately appear in several alias rows (once as small, once as large item); what
+            # matters is the SET of reachable cells and that each stands for exactly one offset
+            by_id = {id(c): c for c in st.cells.yield_cells()}
+            targets = [by_id[cid] for cid in cells]
+        self.domain_cache[key] = targets
+        self.acc.count("veto_domains_enumerated")
+        return targets
+
+    def on_activator(self, bus, active, preceding, result):
+        if preceding is None:
+            return
+        fresh = bus.sh.extract_active_global_state()
+        for st, charge, taggers in self.groups:
+            act = list(st.yield_active_cells())
+            if not act:
+                self.acc.count("activator_calls_without_relevant_active_unit")
+                continue
+            truth, S = C11.truth(self, bus, st, charge)
+            (active_cell, active_id), = act[:1]
+            active_id = tuple(active_id)
+            others = set(truth) - {active_id}
+            covered = []
+            has_far = False
+            for t in taggers:
+                cls = real_class_name(t)
+                if cls in ("ExcludedCellsTagger", "SurplusCellsTagger"):
+                    for ids in t.yield_identifiers_send_event_time(fresh):
+                        covered.append((tuple(ids[1]), t.tag))
+                elif cls == "CellBoundingPotentialTagger":
+                    has_far = True
+                    for ids in t.yield_identifiers_send_event_time(fresh):
+                        for x in ids[1:]:
+                            covered.append((tuple(x), t.tag))
+                elif cls == "CellVetoTagger":
+                    has_far = True
+                    # the handler's domain: the relative cells it holds bounds for (cells with a non-positive bound are in
+                    # the table with rate zero: the family treats them, it just never proposes events from them), mapped
+                    # through the real translate; every cell the handler can actually SAMPLE must be in that image
+                    h0 = t.get_event_handlers()[0]
+                    rel = list(getattr(h0, "_derivative_bounds", {}).keys())
+                    image = [st.cells.translate(active_cell, r) for r in rel]
+                    for cell in image:
+                        for x in st[cell]:
+                            covered.append((tuple(x), t.tag + f"@{cell.identifier}"))
+                    sampled = self.veto_targets(bus, t, st, active_cell, active_id)
+                    for cell in sampled:
+                        if not any(cell is c for c in image):
+                            self.viol(bus, "veto-target-outside-domain", f"cell-veto handler samples target cell "
+                                                                         f"{cell.identifier} for active cell "
+                                                                         f"{active_cell.identifier}, which is not the image of "
+                                                                         f"any stored offset")
+                    if len({id(c) for c in image}) != len(image):
+                        self.viol(bus, "veto-offsets-not-injective", f"two stored offsets map to the same target cell for "
+                                                                     f"active cell {active_cell.identifier}")
+            self.acc.count("partition_checks")
+            ids = [c[0] for c in covered]
+            dup = sorted({i for i in ids if ids.count(i) > 1})
+            if dup:
+                self.viol(bus, "partner-treated-twice", f"active {active_id}: unit {dup[0]} is a target of "
+                                                        f"{[tg for i, tg in covered if i == dup[0]]}", {"unit": list(dup[0])})
+            extra = set(ids) - others
+            if extra:
+                self.viol(bus, "non-partner-treated", f"active {active_id}: targets {sorted(extra)[:3]} are not other relevant units")
+            missing = others - set(ids)
+            if has_far:
+                if missing:
+                    k = sorted(missing)[0]
+                    self.viol(bus, "partner-missed",
+                              f"active {active_id} in cell {active_cell.identifier}: unit {k} at {S[k][0]} (cell "
+                              f"{truth[k].identifier}) is covered by none of {[t.tag for t in taggers]}", {"unit": list(k)})
+                else:
+                    self.acc.count("full_partitions_confirmed")
+                    self.acc.count("partners_covered", len(ids))
+            else:
+                # no far family by design (hard cores): everything in a nearby cell or in a surplus list must be covered
+                self.acc.count("partition_checks_without_far_family")
+                near = st.cells.nearby_cells(active_cell)
+                for k in missing:
+                    if truth[k] in near:
+                        self.viol(bus, "partner-missed", f"active {active_id}: unit {k} sits in nearby cell "
+                                                         f"{truth[k].identifier} but is no target", {"unit": list(k)})
+                self.acc.count("partners_covered", len(ids))
+
+
+MONITORS["C10"] = C10
